@@ -13,7 +13,7 @@ def build(tier, only, chk):
                             meta={'format': b.fmt, 'buffer_bytes': b.spec_len, 'writes': n,
                                   'domain': 'all 2^%d prior contents x all 2^64 values' % (8 * b.spec_len)}))
     if not only or 'descriptor' in (only or ''):
-        offs = range(32) if tier == 'thorough' else []
+        offs = range(32) if tier == 'thorough' else [0, 3, 16, 29, 31]
         for off in offs:
             jobs.append(Job('c02.descriptor.off%02d' % off, G.descriptor_sweep('set', off),
                             ['src/avtp/Utils.c'], unwind=70, unwindset=WALKER, timeout=1500,
@@ -29,7 +29,7 @@ def run(tier, only=None):
     chk.assumptions = STD_ASSUME + [
         'dedicated setters are called with an unrestricted 64-bit value; the implicit conversion to the '
         'parameter type happens at the call as in user code',
-        'descriptor sweep (thorough tier) bounded to start quadlet 0..3']
+        'descriptor sweep (quick: bit offsets 0, 3, 16, 29, 31; thorough: every offset 0..31) bounded to start quadlet 0..3']
     return chk.finish(
         rule='one query per format and byte order; each obligation compares the whole exact-extent object after one '
              'write (generic or dedicated) with the reference writer, plus read-back; all prior contents x all values',
